@@ -112,12 +112,12 @@ Qed.
 
 (* "(X & c1) o c2" / "(X | c1) o c2" has the reported value for every X (for "|" with a relational
    operator the code requires an unsigned left operand: X >= 0) *)
-Theorem mask_compare_sound is_and u1 o c1 c2 b :
-  mask_compare is_and u1 o c1 c2 = Some b ->
+Theorem mask_table_sound is_and u1 o c1 c2 b :
+  mask_table is_and u1 o c1 c2 = Some b ->
   forall x, (is_and = false -> u1 = true -> 0 <= x) ->
   cmp_eval o (bit_value is_and x c1) c2 = b.
 Proof.
-  unfold mask_compare. intros H x Hx.
+  unfold mask_table. intros H x Hx.
   destruct (c2 <? 0) eqn:E2; [discriminate|].
   destruct (c1 <? 0) eqn:E1; [discriminate|].
   assert (H1 : 0 <= c1) by lia. assert (H2 : 0 <= c2) by lia.
@@ -152,11 +152,19 @@ Proof.
       destruct (c2 <=? c1) eqn:E; [|discriminate]. inversion H; subst b. lia.
 Qed.
 
-(* the code keeps the operator when it swaps a left-hand constant to the right: the verdict is then
-   about "(X & c1) o c2" while the program says "c2 o (X & c1)" *)
-Theorem mask_compare_const_left_refuted :
-  exists o c1 c2 b x, mask_compare true false o c1 c2 = Some b /\ cond_value true o (bit_value true x c1) c2 = negb b.
-Proof. exists CGt, 3, 8, false, 0. vm_compute. split; reflexivity. Qed.
+Lemma cmp_eval_mirror o x c : cmp_eval (mirror o) x c = cmp_eval o c x.
+Proof. destruct o; cbn; try reflexivity; rewrite Z.eqb_sym; reflexivity. Qed.
+
+(* the comparison as written -- constant on either side -- has the reported value for every X *)
+Theorem mask_compare_sound is_and u1 cl o c1 c2 b :
+  mask_compare is_and u1 cl o c1 c2 = Some b ->
+  forall x, (is_and = false -> u1 = true -> 0 <= x) ->
+  cond_value cl o (bit_value is_and x c1) c2 = b.
+Proof.
+  unfold mask_compare, cond_value. intros H x Hx. destruct cl.
+  - rewrite <- cmp_eval_mirror. eapply mask_table_sound; eauto.
+  - eapply mask_table_sound; eauto.
+Qed.
 
 (* ---------- opposite_cond ---------- *)
 Theorem opposite_cond_sound o1 c1 o2 c2 :
@@ -213,6 +221,7 @@ Theorem oor_in_context_sound p vt ct cl o c b :
   c_compare p vt ct cl o x c = RVal tint (b2z b).
 Proof.
   unfold oor_in_context, c_compare. intros H x Hf. cbv zeta. intros Hx Hc.
+  destruct (signed_to_unsigned_skip p vt ct); [discriminate|].
   assert (Hb : 0 < bits_of p (t_base vt)).
   { unfold out_of_type_range in H.
     destruct ((_ <? 0) && negb _); [discriminate|].
@@ -223,14 +232,27 @@ Qed.
 
 Definition unix64 : platform := mkP 8 16 32 64 64 true.
 
-(* ... and without that hypothesis the verdict can be wrong: `short x; x < 40000U` is reported
-   always true, but x = -1 is converted to 4294967295 *)
+Definition unix32 : platform := mkP 8 16 32 32 64 true.
+
+(* since fix 6eefeb1 the former witness `short x; x < 40000U` is no longer flagged ... *)
+Theorem signed_to_unsigned_skipped p vt ct cl o c :
+  vsign_of vt = VSigned -> t_sign ct = Unsigned ->
+  Z.max (int_bit p) (bits_of p (t_base vt)) <= bits_of p (t_base ct) ->
+  oor_in_context p vt ct cl o c = None.
+Proof.
+  intros H1 H2 H3. unfold oor_in_context, signed_to_unsigned_skip. rewrite H1, H2.
+  destruct (Z.max (int_bit p) (bits_of p (t_base vt)) <=? bits_of p (t_base ct)) eqn:E; [reflexivity|lia].
+Qed.
+
+(* ... but without the conversion hypothesis the verdict can still be wrong: `unsigned long x; -1 <= x`
+   with a 32-bit long is reported always true, but -1 is converted to 4294967295
+   (the token's Known value keeps the left operand's sign: C01's vf-equal-size-different-rank) *)
 Theorem oor_in_context_refuted :
   exists p vt ct cl o c x b,
     fits p vt x = true /\ fits p ct c = true /\
     oor_in_context p vt ct cl o c = Some b /\
     c_compare p vt ct cl o x c = RVal tint (b2z (negb b)).
 Proof.
-  exists unix64, (mkT TShort Signed), (mkT TInt Unsigned), false, CLt, 40000, (-1), true.
+  exists unix32, (mkT TLong Unsigned), (mkT TInt Signed), true, CLe, (-1), 0, true.
   vm_compute. split; [reflexivity|]. split; [reflexivity|]. split; reflexivity.
 Qed.
